@@ -323,6 +323,14 @@ def check_seq(c, rec):
         raise Violation("sequential_order", "Sequential.submodules() is not the registration order")
 
 
+@st.composite
+def _one_command(draw):
+    return draw(histories())["steps"][0]
+
+
 def subchecks():
-    return [SubCheck("histories", check_history, histories, quick=900, thorough=4000, shards_quick=8, shards_thorough=16),
+    from ..core import command_machine
+    return [SubCheck("histories_rule_based", check_history, None, steps=24, quick=60, thorough=500, shards_quick=2, shards_thorough=4,
+                     machine=command_machine(st.just({}), _one_command(), lambda init, cmds: {"steps": cmds})),
+            SubCheck("histories", check_history, histories, quick=900, thorough=4000, shards_quick=8, shards_thorough=16),
             SubCheck("sequential", check_seq, seq_cases, quick=300, thorough=3000)]
